@@ -6,18 +6,64 @@ import (
 )
 
 // Systematic program generation for the "for every small concurrent client program" quantifier: two
-// client threads, each a sequence of one or two items from a fixed alphabet over key a (autocommit
-// operations and whole RU/RC transactions), optionally a GC actor, over two initial states.
+// client threads, each a sequence of items from a fixed alphabet over key a (autocommit operations and
+// whole RU/RC transactions), optionally a GC actor, over two initial states.
 
-// item is a template; %d is replaced by a fresh transaction slot.
-var items = []string{
-	"Sa", "Da", "Ga", "K", "Ca",
-	"b%d1.s%da.c%d",     // RC: set, commit
-	"b%d1.s%da.r%d",     // RC: set, rollback
-	"b%d0.g%da.r%d",     // RU: get
-	"b%d1.d%da.c%d",     // RC: delete, commit
-	"b%d1.g%da.k%d.r%d", // RC: get, keys
-	"b%d0.s%da.k%d.c%d", // RU: set, keys, commit
+// An Alphabet is a list of item templates (%d is replaced by a fresh transaction slot; an item may chain
+// several operations with '.') and the initial states its programs start from. Items[:Readers] only read.
+type Alphabet struct {
+	Items   []string
+	Readers int
+	Inits   []string
+}
+
+// C06: autocommit operations and whole RU/RC transactions on key a.
+var AlphaC06 = Alphabet{
+	Items: []string{
+		"Ga", "K",
+		"b%d0.g%da.r%d",     // RU: get
+		"b%d1.g%da.k%d.r%d", // RC: get, keys
+		"Sa", "Da", "Ca",
+		"b%d1.s%da.c%d",     // RC: set, commit
+		"b%d1.s%da.r%d",     // RC: set, rollback
+		"b%d1.d%da.c%d",     // RC: delete, commit
+		"b%d0.s%da.k%d.c%d", // RU: set, keys, commit
+	},
+	Readers: 4,
+	// one version of a; three versions over two keys
+	Inits: []string{"I:Sa", "I:Sa.Sa.Sb"},
+}
+
+// C07: transactions whose commits may conflict (snapshot writers with intersecting and disjoint write
+// sets, next to RC and autocommit writers).
+var AlphaC07 = Alphabet{
+	Items: []string{
+		"b%d2.s%da.c%d",      // RR: set a, commit
+		"b%d3.s%da.c%d",      // SER: set a, commit
+		"b%d2.s%da.s%db.c%d", // RR: set a, set b, commit
+		"b%d3.d%da.c%d",      // SER: delete a, commit
+		"b%d2.g%da.s%db.c%d", // RR: get a, set b, commit
+		"b%d1.s%da.c%d",      // RC: set a, commit
+		"Sa",
+		"b%d2.s%da.r%d", // RR: set a, rollback
+	},
+	Inits: []string{"I:Sa.Sb"},
+}
+
+// C08: snapshot readers against every kind of writer on two keys.
+var AlphaC08 = Alphabet{
+	Items: []string{
+		"b%d2.g%da.g%db.g%da.r%d", // RR: get a, get b, get a
+		"b%d3.k%d.g%da.g%db.r%d",  // SER: keys, get a, get b
+		"b%d2.g%da.k%d.g%da.r%d",  // RR: get a, keys, get a
+		"Sa.Sb",
+		"Da",
+		"b%d1.s%da.s%db.c%d", // RC: set a, set b, commit
+		"b%d2.s%da.d%db.c%d", // RR: set a, delete b, commit
+		"b%d1.s%da.r%d",      // RC: set a, rollback
+	},
+	Readers: 3,
+	Inits:   []string{"I:Sa.Sb"},
 }
 
 func instantiate(it string, slot *int) string {
@@ -33,56 +79,57 @@ func instantiate(it string, slot *int) string {
 	return fmt.Sprintf(it, args...)
 }
 
-// Programs returns the generated programs: itemsPerThread 1 or 2; gc adds the GC actor thread.
-func Programs(itemsPerThread int) []string {
-	var seqs [][]int
-	for i := range items {
-		seqs = append(seqs, []int{i})
+func (al *Alphabet) seqsOf(n int) [][]int {
+	if n == 0 {
+		return [][]int{nil}
 	}
-	if itemsPerThread >= 2 {
-		for i := range items {
-			for j := range items {
-				seqs = append(seqs, []int{i, j})
-			}
+	var out [][]int
+	for _, p := range al.seqsOf(n - 1) {
+		for i := range al.Items {
+			out = append(out, append(append([]int{}, p...), i))
 		}
 	}
+	return out
+}
+
+// Programs returns the generated programs with la items in the first client thread and lb in the second
+// (unordered pairs when la == lb), from the given initial state, with or without the GC actor thread.
+func (al *Alphabet) Programs(la, lb int, init string, gc bool) []string {
 	pure := func(s []int) bool { // a thread that only reads
 		for _, i := range s {
-			switch items[i] {
-			case "Ga", "K", "b%d0.g%da.r%d", "b%d1.g%da.k%d.r%d":
-			default:
+			if i >= al.Readers {
 				return false
 			}
 		}
 		return true
 	}
+	sa, sb := al.seqsOf(la), al.seqsOf(lb)
 	var out []string
-	for a := 0; a < len(seqs); a++ {
-		for b := a; b < len(seqs); b++ {
-			if pure(seqs[a]) && pure(seqs[b]) {
+	for a := range sa {
+		for b := range sb {
+			if la == lb && b < a {
+				continue
+			}
+			if pure(sa[a]) && pure(sb[b]) {
 				continue // two readers: nothing to linearize against
 			}
-			for _, init := range []string{"I:Sa", "I:Sa.Sa.Sb"} {
-				for _, gc := range []bool{false, true} {
-					slot := 0
-					var ths []string
-					for _, s := range [][]int{seqs[a], seqs[b]} {
-						var parts []string
-						for _, i := range s {
-							parts = append(parts, instantiate(items[i], &slot))
-						}
-						ths = append(ths, strings.Join(parts, "."))
-					}
-					if slot > 9 {
-						continue
-					}
-					p := init + "|" + strings.Join(ths, "|")
-					if gc {
-						p += "|X"
-					}
-					out = append(out, p)
+			slot := 0
+			var ths []string
+			for _, s := range [][]int{sa[a], sb[b]} {
+				var parts []string
+				for _, i := range s {
+					parts = append(parts, instantiate(al.Items[i], &slot))
 				}
+				ths = append(ths, strings.Join(parts, "."))
 			}
+			if slot > 9 {
+				continue
+			}
+			p := init + "|" + strings.Join(ths, "|")
+			if gc {
+				p += "|X"
+			}
+			out = append(out, p)
 		}
 	}
 	return out
